@@ -34,9 +34,13 @@ def step (d : DS) (l : String) : List String × DS :=
   match d.web.bind (fun w => httpStep w l ws) with
   | some (out, w) => (out, { d with web := some w })
   | none =>
-  match bddStep d.bdd l ws with
-  | some (out, b) => (out, { d with bdd := b })
-  | none =>
+  -- the diagram store is detached from `d` while the request runs (in-place updates when compiled)
+  let b0 := d.bdd
+  let d := { d with bdd := {} }
+  match bddStepL b0 l ws with
+  | (some out, b) => (out, { d with bdd := b })
+  | (none, b0) =>
+  let d := { d with bdd := b0 }
   match adfStep d.adf l ws with
   | some (out, a) => (out, { d with adf := a })
   | none =>
